@@ -72,6 +72,7 @@ struct ThreadState
 thread_local ThreadState tls;
 
 int g_nthreads_var = 0;  // 0: not set -> number of processors
+int g_max_active_levels = 1;  // nested regions beyond this many active levels get a team of one
 
 int default_threads()
 {
@@ -116,12 +117,22 @@ int omp_get_num_threads(void) { return tls.team ? tls.team->nthreads : 1; }
 int omp_get_thread_num(void) { return tls.thread_num; }
 int omp_in_parallel(void) { return tls.active_level > 0; }
 int omp_get_num_procs(void) { return default_threads(); }
+int omp_get_max_active_levels(void) { return g_max_active_levels; }
+void omp_set_max_active_levels(int n)
+{
+  if (n >= 0)
+    g_max_active_levels = n;
+}
+int omp_get_nested(void) { return g_max_active_levels > 1; }
+void omp_set_nested(int on) { g_max_active_levels = on ? 64 : 1; }
+int omp_get_level(void) { return tls.level; }
+int omp_get_active_level(void) { return tls.active_level; }
 
 void GOMP_parallel(void (*fn)(void *), void *data, unsigned num_threads, unsigned /*flags*/)
 {
   int n = num_threads ? (int)num_threads : omp_get_max_threads();
-  if (tls.level >= 1)
-    n = 1;  // nested regions are serialised (max-active-levels-var = 1)
+  if (tls.active_level >= g_max_active_levels)
+    n = 1;  // no further active level allowed: the nested region is serialised
   Team team;
   team.nthreads = n;
   team.fn = fn;
